@@ -122,6 +122,8 @@ def _run(ctx):
     for cfg, inv in (("MC_ScalImpl_loop.cfg", "TableIndexInRange"), ("MC_ScalImpl_wrap.cfg", "ResultConforms")):
         ctx.tlc_mc(SPEC, "MC_ScalImpl.tla", cfg, expect=inv, jvm=JVM, coverage=False)
     ctx.tlc_mc(SPEC, "MC_Serializer.tla", "MC_Serializer_wrap.cfg", expect="BoundsRuleAndRoundTrip", jvm=JVM, coverage=False)
+    ctx.tlc_mc(SPEC, "Md5Count.tla", "MC_Md5Count_ok.cfg", jvm=JVM, required_actions=["Update|CNext"])
+    ctx.tlc_mc(SPEC, "Md5Count.tla", "MC_Md5Count_wide.cfg", expect="CountIsBitLength", jvm=JVM, coverage=False)
     #   "one fold of the carries is enough" must be refuted on the carry-boundary checksum domain (the domain reaches the second carry)
     ctx.tlc_mc(SPEC, "Laws.tla", "MC_Laws_singlefold.cfg", expect="SingleFoldSuffices", jvm=JVM, coverage=False)
     cleanup_ttrace()
@@ -186,6 +188,20 @@ def _run(ctx):
     write_script(sp, md5_cases)
     tr = ctx.tmp("md5_lengths.ndjson")
     run_and_validate(ctx, exe, ["script", sp, "@OUT", "exact"], tr, "MD5 at %d boundary lengths, all splits" % len(lens))
+    #    messages of 2^29 bytes and more in ONE update() call (2^32 bits: the bit count carries into its high word), against the
+    #    same bytes hashed in pieces; the TLA+ operator cannot hash half a gigabyte, the law is split-independence + one known digest
+    big = [{"e": "Md5Big", "lg": 29, "delta": 0, "pat": 0, "ways": 2}]
+    if not quick:
+        big = [{"e": "Md5Big", "lg": lg, "delta": dl, "pat": pat, "ways": 3}
+               for (lg, dl, pat) in ((29, -1, 0), (29, 0, 0), (29, 1, 0), (29, 100, 0), (29, 0, 7), (29, 1, 7), (30, 0, 0), (30, 1, 0))]
+    sp = ctx.tmp("md5_big.jsonl")
+    write_script(sp, big)
+    tr = ctx.tmp("md5_big.ndjson")
+    ok, lines = run_and_validate(ctx, exe, ["script", sp, "@OUT", "exact"], tr, "MD5 of >= 2^29 bytes in one update vs. split (%d messages)" % len(big))
+    if ok:
+        ev = next((json.loads(x) for x in lines if '"e":"Md5Big"' in x), None)
+        if ev:
+            ctx.sample({"kind": "MD5 of 2^%d%+d bytes: one update() call and %d splits" % (ev["lg"], ev["delta"], ev["n"]), "one": ev["one"], "distinct_digests_of_splits": ev["splits"]})
     tr = ctx.tmp("random_md5aes.ndjson")
     ok, lines = run_and_validate(ctx, exe, ["random", ctx.seed, 60 if quick else 1200, "@OUT", "exact", "Md5,Aes"], tr, "MD5 splits and AES blocks")
     if ok:
@@ -211,7 +227,8 @@ def _run(ctx):
         "url.cpp calls isprint() with a negative char for bytes >= 0x80: undefined behaviour that glibc happens to tolerate - not observable, not reported",
         "every 64-bit value / every key and block: boundary values exhaustively, the rest sampled (seeded)",
         "MD5: every split into <= 3 updates for messages <= 70 bytes, all two-way splits and random splits up to ~150 bytes; not every "
-        "composition, no message >= 2^29 bytes (carry into count_[1])",
+        "composition. Messages >= 2^29 bytes (bit count carries into its high word) are checked for split-independence (one update = "
+        "pieces < 2^29 bytes = two/three updates) and, for 2^29 zero bytes, against the known digest - not against the TLA+ operator",
         "inputs validated by TLC are short (<= ~150 bytes); RawDataToHexStr/HexStrToRawData lengths >= 65536 (uint16_t parameters) not exercised",
         "operator<< / operator>> wrappers (incl. float/double) of the serializer are not driven, only append*/fetch*/skip/set_pos",
     ]
